@@ -390,6 +390,14 @@ func (r *sysRun) start() bool {
 					q = mg.pattern.AsString()
 				}
 				r.sim.Logf("EvtSearchFin q=%q n=%d final=%v rev=%v", q, mg.Length(), mg.final, mg.revision)
+				if v := os.Getenv("VERIF_TRACK_ITEM"); v != "" {
+					want, _ := strconv.Atoi(v)
+					for i := 0; i < mg.Length(); i++ {
+						if res := mg.Get(i); int(res.item.Index()) == want {
+							r.sim.Logf("  tracked item %d at %d: points %v text %q itemptr %p", want, i, res.points, res.item.text.ToString(), res.item)
+						}
+					}
+				}
 			}
 		}
 		if mr, ok := value.(MatchRequest); ok {
